@@ -16,6 +16,7 @@ import (
 	"verifharness/hx"
 
 	"github.com/criyle/go-sandbox/container"
+	"github.com/criyle/go-sandbox/pkg/forkexec"
 	"github.com/criyle/go-sandbox/pkg/mount"
 	"github.com/criyle/go-sandbox/pkg/verifhook"
 	"github.com/criyle/go-sandbox/runner"
@@ -363,6 +364,30 @@ func c12CtrMain(args []string) error {
 					o.Setup = err.Error()
 					break
 				}
+			}
+			o.End = settle(nil, o.Base)
+		case "clonefail":
+			// forkexec.Start whose clone itself fails (clone3 into something that is not a cgroup directory),
+			// interleaved with successful starts: the parent side must release everything it prepared
+			one := func(i int) {
+				r := forkexec.Runner{Args: []string{args[0], "n", "exit:0"}, Env: []string{"PATH=/bin"}, Files: nullFiles()}
+				if i%3 != 2 {
+					r.CgroupFd = devNull.Fd()
+				}
+				if pid, err := r.Start(); err == nil {
+					var ws syscall.WaitStatus
+					syscall.Wait4(pid, &ws, 0, nil)
+				} else if i%3 == 2 {
+					o.Setup = "plain start failed: " + err.Error()
+				}
+			}
+			for i := 0; i < 6; i++ {
+				one(i)
+			}
+			time.Sleep(50 * time.Millisecond)
+			o.Base = sample(nil)
+			for i := 0; i < c.Reps*6; i++ {
+				one(i)
 			}
 			o.End = settle(nil, o.Base)
 		case "buildfail":
